@@ -21,7 +21,7 @@ class Z3H:
 
     def sqrt(self, e):
         # sum-of-monomials normal form: radicands that are the same polynomial (e.g. up to where LLVM placed an fneg) share one sqrt symbol
-        e = z3.simplify(e, som=True) if z3.is_expr(e) else self.real(e)
+        e = z3.simplify(e, som=True, sort_sums=True) if z3.is_expr(e) else self.real(e)
         k = e.hash()
         for (ee, r) in self._sqrt.get(k, []):
             if ee.eq(e):
@@ -34,7 +34,7 @@ class Z3H:
         return r
 
     def trig(self, e):
-        e = z3.simplify(e, som=True) if z3.is_expr(e) else self.real(e)
+        e = z3.simplify(e, som=True, sort_sums=True) if z3.is_expr(e) else self.real(e)
         # sin is odd, cos is even: canonicalise the sign of the argument (the compiled code computes sin(-t) where the reference says -sin(t))
         lead = e
         while z3.is_add(lead):
